@@ -1,6 +1,7 @@
 /-
   C12 — the proxy hands Prometheus exactly the bytes the target served.
 -/
+import Kvass.Pins.Proxy
 import Kvass.Spec.Proxy
 
 namespace Kvass.Props.C12
